@@ -9,7 +9,7 @@ import ZapProofs.WriterLemmasBA
 import ZapProofs.WriterLemmasLayoutDefs
 
 namespace Zap.Writer.LP
-open Zap Zap.Layout Zap.Writer Zap.Writer.BA
+open Zap Zap.Layout Zap.Writer Zap.Writer.BA Zap.Writer.LayoutDefs
 
 /-! ### `for _ in [0:n]` -/
 
@@ -667,4 +667,223 @@ theorem walkChunks_sim (what : String) (b : ByteArray) (offs : List Nat) (p cs :
       simp only [pure, Except.pure, cstop, Codec.chunkBoundary]
 
 end Walk
+/-! ### the composition of `decPostings` -/
+
+def toItem (d : Nat) (x : Nat × Nat × Bool) : FreqItem :=
+  { doc := d, freq := x.1, norm := x.2.1, hasLocs := x.2.2 }
+
+theorem zipItems_sim : ∀ (items : List (Nat × (Nat × Nat × Bool))) (lss : List (List MLoc)) (es : List Entry),
+    zipLocs items lss = some es →
+    zipItems (items.map (fun x => toItem x.1 x.2)) lss = .ok es := by
+  intro items
+  induction items with
+  | nil => intro lss es h; simp [zipLocs] at h; subst h; rfl
+  | cons x xs ih =>
+    intro lss es h
+    obtain ⟨d, f, n, hl⟩ := x
+    cases hl with
+    | true =>
+      cases lss with
+      | nil => simp [zipLocs] at h
+      | cons l r =>
+        simp only [zipLocs] at h
+        cases hz : zipLocs xs r with
+        | none => simp [hz] at h
+        | some tl =>
+          simp only [hz, Option.map_some, Option.some.injEq] at h
+          subst h
+          have ih' := ih r tl hz
+          simp only [toItem] at ih'
+          simp [zipItems, toItem, ih', bind, Except.bind, pure, Except.pure]
+    | false =>
+      simp only [zipLocs] at h
+      cases hz : zipLocs xs lss with
+      | none => simp [hz] at h
+      | some tl =>
+        simp only [hz, Option.map_some, Option.some.injEq] at h
+        subst h
+        have ih' := ih lss tl hz
+        simp only [toItem] at ih'
+        simp [zipItems, toItem, ih', bind, Except.bind, pure, Except.pure]
+
+theorem walkL_length {αL : Type} (offs : List Nat) (data : Bytes) (cs : Nat)
+    (decL : Nat → Bytes → Option (αL × Bytes)) :
+    ∀ (docs : List Nat) (ci : Nat) (curB : Bytes) (as : List αL),
+      walkL offs data cs decL docs ci curB = some as → as.length = docs.length := by
+  intro docs
+  induction docs with
+  | nil =>
+    intro ci curB as h
+    simp only [walkL] at h
+    split at h
+    · cases h; rfl
+    · cases h
+  | cons d ds ih =>
+    intro ci curB as h
+    simp only [walkL] at h
+    by_cases hn : d / cs ≥ offs.length
+    · rw [if_pos hn] at h; cases h
+    · rw [if_neg hn] at h
+      by_cases hc : d / cs = ci
+      · rw [if_pos hc] at h
+        cases hd : decL d curB with
+        | none => simp [hd] at h
+        | some ar =>
+          simp only [hd] at h
+          cases hw : walkL offs data cs decL ds ci ar.2 with
+          | none => simp [hw] at h
+          | some as' =>
+            simp only [hw, Option.map_some, Option.some.injEq] at h
+            subst h
+            simp [ih ci _ as' hw]
+      · rw [if_neg hc] at h
+        by_cases hbad : d / cs < ci ∨ curB ≠ [] ∨ cstart offs (d / cs) ≠ cstop offs ci
+        · rw [if_pos hbad] at h; cases h
+        · rw [if_neg hbad] at h
+          cases hd : decL d (chunkBytes offs data (d / cs)) with
+          | none => simp [hd] at h
+          | some ar =>
+            simp only [hd] at h
+            cases hw : walkL offs data cs decL ds (d / cs) ar.2 with
+            | none => simp [hw] at h
+            | some as' =>
+              simp only [hw, Option.map_some, Option.some.injEq] at h
+              subst h
+              simp [ih _ _ as' hw]
+
+theorem readChunksL_nondec (stream : Bytes) (offs : List Nat) (data : Bytes)
+    (h : readChunksL stream = some (offs, data)) : nondec offs = true := by
+  unfold readChunksL at h
+  cases h1 : uv64 stream with
+  | none => simp [h1] at h
+  | some vr =>
+    simp only [h1] at h
+    cases h2 : readN64 vr.1 vr.2 with
+    | none => simp [h2] at h
+    | some od =>
+      simp only [h2] at h
+      by_cases hnd : (!nondec od.1) = true
+      · rw [if_pos hnd] at h; cases h
+      · rw [if_neg hnd] at h
+        split at h
+        · cases h
+        · simp only [Option.some.injEq, Prod.mk.injEq] at h
+          rw [← h.1]
+          simpa using hnd
+
+/-- `Layout.readChunks` + `Layout.walkChunks` against `walkChunksL`. -/
+theorem walkChunksA_sim {αL αA : Type} (what : String) (b : ByteArray) (pos cs : Nat)
+    (decL : Nat → Bytes → Option (αL × Bytes)) (decA : Nat → Nat → Nat → R (αA × Nat)) (conv : Nat → αL → αA)
+    (hsim : ∀ d cur lim a rest, decL d (region b cur lim) = some (a, rest) →
+      ∃ cur', decA d cur lim = .ok (conv d a, cur') ∧ rest = region b cur' lim ∧ cur ≤ cur' ∧ cur' ≤ lim)
+    (docs : List Nat) (as : List αL)
+    (h : walkChunksL cs ((ofBA b).drop pos) docs decL = some as) :
+    ∃ ch, readChunks what b pos = .ok ch ∧ walkChunks what ch cs docs decA = .ok (List.zipWith conv docs as) ∧
+      as.length = docs.length ∧
+      ∃ offs data, readChunksL ((ofBA b).drop pos) = some (offs, data) ∧
+        ch.endAbs = b.size - data.length + offs.getLastD 0 := by
+  unfold walkChunksL at h
+  by_cases hcs : cs = 0
+  · rw [if_pos hcs] at h; cases h
+  · rw [if_neg hcs] at h
+    cases hr : readChunksL ((ofBA b).drop pos) with
+    | none => simp [hr] at h
+    | some od =>
+      obtain ⟨offs, data⟩ := od
+      simp only [hr] at h
+      obtain ⟨p, e1, e2, e3, e4⟩ := readChunks_sim what b pos offs data hr
+      have hnd := readChunksL_nondec _ _ _ hr
+      rw [e2] at h
+      refine ⟨_, e1, walkChunks_sim what b offs p cs hnd e3 hcs decL decA conv hsim docs as h,
+        walkL_length _ _ _ _ _ _ _ _ h, offs, data, rfl, ?_⟩
+      have hdl : b.size - data.length = p := by
+        rw [e2, List.length_drop, ofBA_length]; omega
+      rw [hdl]
+      simp only [Chunks.endAbs, Chunks.total]
+      by_cases hne : offs = []
+      · subst hne; simp
+      · have : offs.length ≠ 0 := by simpa using hne
+        rw [if_neg this, getLastD_eq_getD offs hne]
+        simp
+
+theorem zipWith_snd_eq {α β : Type} : ∀ (xs : List α) (ys : List β), ys.length = xs.length →
+    List.zipWith (fun _ y => y) xs ys = ys := by
+  intro xs
+  induction xs with
+  | nil => intro ys h; cases ys <;> simp_all
+  | cons x xs ih =>
+    intro ys h
+    cases ys with
+    | nil => simp at h
+    | cons y ys => simp [ih ys (by simpa using h)]
+
+theorem zipWith_eq_map_zip {α β γ : Type} (f : α → β → γ) : ∀ (xs : List α) (ys : List β),
+    List.zipWith f xs ys = (xs.zip ys).map (fun x => f x.1 x.2) := by
+  intro xs
+  induction xs with
+  | nil => intro ys; simp
+  | cons x xs ih =>
+    intro ys
+    cases ys with
+    | nil => simp
+    | cons y ys => simp [ih ys]
+
+/-- Layout's own functions, composed as in `decPostings`, accept what the twin accepts. -/
+theorem layoutEntries_sim (b : ByteArray) (cs : Nat) (docs : List Nat) (fo lo off : Nat) (es : List Entry)
+    (hfo : fo ≠ 0)
+    (h : decodeEntriesL cs docs ((ofBA b).drop fo) (if lo = 0 then none else some ((ofBA b).drop lo))
+      = some es)
+    (hadjF : ∀ offs data, readChunksL ((ofBA b).drop fo) = some (offs, data) →
+      b.size - data.length + offs.getLastD 0 = if lo = 0 then off else lo)
+    (hadjL : lo ≠ 0 → ∀ offs data, readChunksL ((ofBA b).drop lo) = some (offs, data) →
+      b.size - data.length + offs.getLastD 0 = off) :
+    layoutEntries b cs docs fo lo off = .ok es := by
+  unfold decodeEntriesL at h
+  cases hf : walkChunksL cs ((ofBA b).drop fo) docs decFreqL with
+  | none => simp [hf] at h
+  | some fsL =>
+    simp only [hf] at h
+    obtain ⟨fch, r1, w1, _, offsF, dataF, rcF, endF⟩ := walkChunksA_sim "freq/norm stream" b fo cs
+      decFreqL (decFreq b) toItem
+      (by intro d cur lim a rest hd
+          obtain ⟨f, n, hl⟩ := a
+          exact decFreq_sim b d cur lim f n hl rest hd)
+      docs fsL hf
+    have hendF := hadjF offsF dataF rcF
+    rw [← endF] at hendF
+    rw [zipWith_eq_map_zip] at w1
+    have hloc : ((List.map (fun x => toItem x.1 x.2) (docs.zip fsL)).filter (·.hasLocs)).map (·.doc)
+        = ((docs.zip fsL).filter (·.2.2.2)).map (·.1) := by
+      rw [List.filter_map, List.map_map]
+      rfl
+    unfold layoutEntries
+    simp only [bind, Except.bind, r1, w1, hloc]
+    rw [if_neg hfo]
+    simp only [pure, Except.pure]
+    by_cases hlo : lo = 0
+    · rw [if_pos hlo] at h hendF
+      simp only at h
+      rw [if_pos hlo]
+      by_cases hemp : (((docs.zip fsL).filter (·.2.2.2)).map (·.1)).isEmpty = true
+      · rw [if_pos hemp] at h
+        simp only [hemp, Bool.not_true, Bool.false_eq_true, if_false]
+        rw [if_neg (by simp [hendF])]
+        exact zipItems_sim _ _ _ h
+      · rw [if_neg hemp] at h; cases h
+    · rw [if_neg hlo] at h hendF
+      simp only at h
+      rw [if_neg hlo]
+      cases hl : walkChunksL cs ((ofBA b).drop lo) (((docs.zip fsL).filter (·.2.2.2)).map (·.1)) decLocsL with
+      | none => simp [hl] at h
+      | some lss =>
+        simp only [hl] at h
+        obtain ⟨lch, r2, w2, hlen, offsL, dataL, rcL, endL⟩ := walkChunksA_sim "location stream" b lo cs
+          decLocsL (decLocs b) (fun _ l => l) (decLocs_sim b) _ lss hl
+        have hendL := hadjL hlo offsL dataL rcL
+        rw [← endL] at hendL
+        rw [zipWith_snd_eq _ _ hlen] at w2
+        simp only [r2, w2]
+        rw [if_neg (by simp [hendF]), if_neg (by simp [hendL])]
+        exact zipItems_sim _ _ _ h
+
 end Zap.Writer.LP
